@@ -19,6 +19,8 @@ Definition request (s : hs) (name : string) : hs * bool :=
   ({| h_sm := m; h_queues := h_queues s; h_closing := h_closing s |}, raised).
 
 Definition queued (s : hs) (system : Z) : bool := existsb (fun p => fst p =? system) (h_queues s).
+(* _open_control_requests: a control request of this type is open under these system bytes *)
+Definition queued_as (s : hs) (system stype : Z) : bool := existsb (fun p => (fst p =? system) && (snd p =? stype)) (h_queues s).
 Definition unqueue (s : hs) (system : Z) : hs :=
   {| h_sm := h_sm s; h_queues := filter (fun p => negb (fst p =? system)) (h_queues s); h_closing := h_closing s |}.
 Definition is_selected (s : hs) : bool := (cur (h_sm s) =? connection_CONNECTED_SELECTED)%nat.
@@ -43,21 +45,25 @@ Definition hs_step (s : hs) (e : sevent) : hs * list sout :=
       if h_closing s then (s, [OutReject system 4])
       else let '(s1, _) := request s "select" in (s1, [OutCtrl ST_SELECT_RSP system])
     else if stype =? ST_SELECT_RSP then
-      if negb (queued s system) then (s, [])
+      if negb (queued_as s system ST_SELECT_REQ) then (s, [])
       else let s1 := if (status =? 0) && (cur (h_sm s) =? connection_CONNECTED_NOT_SELECTED)%nat then fst (request s "select") else s in
            (unqueue s1 system, [OutResolve system])
     else if stype =? ST_DESELECT_REQ then
       if h_closing s then (s, [OutReject system 4])
       else let '(s1, _) := request s "deselect" in (s1, [OutCtrl ST_DESELECT_RSP system])
     else if stype =? ST_DESELECT_RSP then
-      if negb (queued s system) then (s, [])
+      if negb (queued_as s system ST_DESELECT_REQ) then (s, [])
       else let s1 := if (status =? 0) && (cur (h_sm s) =? connection_CONNECTED_SELECTED)%nat then fst (request s "deselect") else s in
            (unqueue s1 system, [OutResolve system])
     else if stype =? ST_LINKTEST_REQ then
       if h_closing s then (s, [OutReject system 4]) else (s, [OutCtrl ST_LINKTEST_RSP system])
-    else
-      (* Linktest.rsp, Reject.req, Separate.req: only a waiting requester is served *)
+    else if stype =? ST_LINKTEST_RSP then
+      (* the response to an open Linktest.req, to nothing else *)
+      if queued_as s system ST_LINKTEST_REQ then (unqueue s system, [OutResolve system]) else (s, [])
+    else if stype =? ST_REJECT then
+      (* ends the transaction it names, whatever its type *)
       if queued s system then (unqueue s system, [OutResolve system]) else (s, [])
+    else (s, [])            (* Separate.req (and anything else): no branch *)
   | EvData system w _ =>
     if negb (is_selected s) then (s, [OutReject system 4])
     else if queued s system && negb w then (unqueue s system, [OutResolve system]) else (s, [OutDeliver system])
